@@ -500,6 +500,36 @@ theorem tie_progRestHandler (v : Verdict) (q : SiteReq) :
   rw [hc]
   cases v <;> simp [restTable, siteEvents, Site.rejectRet]
 
+/-! ### loggedThrottle and promiseWithReason: transparent wrappers, semantically -/
+
+/-- **`loggedThrottle.doReq` is `logError ∘ googleBreaker.doReq`** with `req` and `fallback` forwarded unchanged and a
+closure in the predicate's place that answers exactly what `acceptable` answers for every request result (its only
+extra is a line in the error window); and `logError` returns its argument unchanged — the breaker's own rejection, the
+request's own `ErrServiceUnavailable` (bare or wrapped), any other error, nil — and records nothing.  So
+`doReqEvents` IS the behaviour through the wrapper (`Outcome.brk/wbrk`: the request's own error comes back by identity,
+the fallback is not run by the logging layer). -/
+theorem tie_loggedDoReq :
+    loggedDoReqOuter = "lt.logError" ∧ loggedDoReqInner = "lt.internalThrottle.doReq"
+    ∧ loggedDoReqArgs = ["req", "fallback", "<closure>"]
+    ∧ (∀ (custom : Bool) (o : Outcome), Prog.runClosure loggedDoReqClosure custom o = some (acceptable custom o))
+    ∧ (∀ (errv : Prog.Val) (o : Outcome), Prog.runLogError progLogError errv o = some errv) := by
+  refine ⟨rfl, rfl, rfl, ?_, ?_⟩
+  · intro custom o; cases custom <;> cases o <;> decide
+  · intro errv o; cases errv <;> cases o <;> decide
+
+/-- `loggedThrottle.allow`: the inner `allow()` once (its drop on a rejection, nothing else), the promise wrapped, the
+error through `logError` (identity, above) -/
+theorem tie_loggedAllow (v : Verdict) :
+    Prog.runWrapper progAccept progLoggedAllow v
+      = some (marksOf (allowEvents v), ["promiseWithReason{ promise: promise, errWin: lt.errWin, }", "lt.logError(err)"]) := by
+  cases v <;> decide
+
+/-- `promiseWithReason.Accept / Reject`: exactly one resolution of the inner promise each (Accept → success,
+Reject → failure; the reason only goes to the error window) -/
+theorem tie_promiseWithReason :
+    Prog.runWrapper progAccept progPromiseAccept .pass = some ([.succ], [])
+    ∧ Prog.runWrapper progAccept progPromiseReject .pass = some ([.fail], []) := by decide
+
 /-- **every rejection is recorded exactly once, at every entry point, by the code as extracted**: running the
 extracted `accept` + `doReq` (all four `Do*` entry points, every request outcome), `accept` + `allow` (`Allow`), and
 `accept` + `allow` + the rest handler on a rejecting verdict records exactly one drop — not zero (a caller that
